@@ -569,6 +569,10 @@ func (g *Gen) freshAddr() common.Address {
 }
 
 func (g *Gen) eoaTarget() common.Address {
+	if len(g.L.Graves) > 0 && g.T.Bool(1, 6) {
+		// an address that used to be a contract until it self-destructed
+		return g.L.Graves[g.T.Int(len(g.L.Graves))]
+	}
 	switch g.T.Pick(6, 2, 1) {
 	case 0:
 		return g.pickAcct().Addr
@@ -807,7 +811,8 @@ func (g *Gen) make(k Kind) *Item {
 		if !ok {
 			return nil
 		}
-		return g.Call(from, k, c, g.smallValue(), CallStore(bi(int64(g.T.Int(32))), bi(int64(g.T.Int(4))), 1+g.T.Int(6)), 0, false)
+		// few keys and frequent zero values: slots get rewritten and cleared
+		return g.Call(from, k, c, g.smallValue(), CallStore(bi(int64(g.T.Int(6))), bi(int64(g.T.Pick(3, 1, 1, 1))), 1+g.T.Int(6)), 0, false)
 	case KCallTight:
 		c, ok := g.pickAddr(g.liveNotDying(CStore))
 		if !ok {
